@@ -16,6 +16,9 @@ type Choice struct {
 	isRep  bool
 	pos    int
 	Rec    []uint32
+	// Index is the run index within the batch (generators may use it to enumerate a
+	// small configuration space systematically instead of sampling it).
+	Index int
 }
 
 // NewChoice creates a generating choice stream.
